@@ -7,8 +7,15 @@ directory below the scratch directory:
     command handed to the dumper;
   * `eko run` in its three argument forms x tiny cards x relative/absolute paths: exit status 0, the
     archive is where the help text says, and holds the operators `eko.solve` gives for the same files.
+
+Equality of cards is decided on an attribute image of the card OBJECTS (walk over the dataclass fields, written
+here, independent of DictLike.raw): the cards loaded from the written files against the objects the command built
+(captured where `ekobox.cards.example` hands them out) / the cards the harness built in memory.
 """
 
+import dataclasses
+import enum
+import hashlib
 import math
 import os
 import pathlib
@@ -26,12 +33,15 @@ LEVEL = "exploration"
 TECHNIQUE = "complete scenario product of CLI invocations in subprocesses with private working directories, compared with the library"
 LEVEL_TEXT = (
     "each scenario of the product is executed through the real console entry point in a fresh directory; "
-    "written cards are re-loaded with yaml.safe_load + from_dict and compared field by field with the cards the "
-    "command built; archives are compared operator by operator with eko.solve on the same card files"
+    "written cards are re-loaded with yaml.safe_load + from_dict and compared (i) as raw cards with what the command handed to the dumper, "
+    "(ii) attribute by attribute (walk over the dataclass fields, not DictLike.raw) with the card objects the command built, and are put through "
+    "the solver set-up up to the first integral; nothing but the two cards may appear or change below the scenario directory; "
+    "archives are compared with eko.solve on the same card files: operators and errors element-wise identical, stored cards and metadata equal; "
+    "outputs the library refuses must be refused by the command with the same exception"
 )
 LEVEL_NOTE = (
-    "scenario lattice only (10-20 example scenarios, 12-30 run scenarios, LO/NLO cards on 3-point grids); "
-    "trusted: subprocess, yaml.safe_load, the archive reader; interpreted mode (NUMBA_DISABLE_JIT=1)"
+    "scenario lattice only (17-34 example scenarios, 16-48 run scenarios, LO/NLO/QED cards on 3-point grids, one card with every field away from its default); "
+    "trusted: subprocess, yaml.safe_load, the archive reader; interpreted mode (NUMBA_DISABLE_JIT=1); legacy-format card files are not covered"
 )
 FLOOR_NONTRIVIAL = 3
 
@@ -45,7 +55,16 @@ CARDS = {
     "lo-trunc": dict(xgrid=[0.2, 0.6, 1.0], mugrid=[[4.0, 4]], method="truncated"),
     "lo-pol": dict(xgrid=[0.1, 0.5, 1.0], mugrid=[[6.0, 5]], polarized=True),
     "nlo-1": dict(xgrid=[0.1, 0.5, 1.0], mugrid=[[5.0, 5]], order=[2, 0]),
+    # every card field with its own (de)serialisation branch away from its default: linear grid (written as a dict), enum-valued
+    # optional fields, MSbar references (no nan), floats that are not short decimals, downward path
+    "sink": dict(
+        xgrid=[1 / 3, 0.7, 1.0], is_log=False, mugrid=[[3.0, 4]], init=[10.0, 5], inversion="exact", sv="exponentiated", xif=1.3,
+        scheme="MSBAR", mass_refs=[2.0, 4.5, 173.07], alphas=0.118 / 3, n3lo_ad_variation=[1, 0, 2, 0, 0, 1, 0], use_fhmruvv=False,
+        matching_order=[0, 0], max_order=[7, 0], iterations=3, method="perturbative-exact",
+    ),
+    "qed": dict(xgrid=[0.1, 0.5, 1.0], mugrid=[[10.0, 5]], order=[1, 1], em_running=True, alphaem=0.007496252 / 1.1),
 }
+OUTS = ["tar", "notar", "missing-dir", "exists"]
 DESTS = ["none", "rel-existing", "abs-existing", "rel-missing", "abs-missing", "rel-nested-missing", "abs-nested-missing"]
 
 
@@ -64,9 +83,47 @@ def _exc_class(stderr):
         return "usage-error"
     for ln in reversed(lines):
         head = ln.split(":")[0].strip()
-        if head and " " not in head and (head.endswith("Error") or head.endswith("Exception")):
+        if head and " " not in head and (head.endswith("Error") or head.endswith("Exception") or head.split(".")[-1] in _EKO_EXC):
             return head.split(".")[-1]
     return "unknown"
+
+
+_EKO_EXC = ("OutputNotTar",)  # exception classes of eko.io.exceptions whose name does not end in Error
+
+
+def _image(o):
+    """Attribute image of a card object: plain data obtained by walking the dataclass fields (not through DictLike.raw)."""
+    from eko.interpolation import XGrid
+
+    if isinstance(o, XGrid):
+        return {"points": [float(x) for x in np.asarray(o.raw).tolist()], "log": bool(o.log)}
+    if dataclasses.is_dataclass(o) and not isinstance(o, type):
+        return {f.name: _image(getattr(o, f.name)) for f in dataclasses.fields(o)}
+    if isinstance(o, enum.Enum):
+        return ["enum", type(o).__name__, o.name]
+    if isinstance(o, dict):
+        return {str(k): _image(v) for k, v in o.items()}
+    if isinstance(o, (list, tuple)):
+        return [_image(v) for v in o]
+    if isinstance(o, np.ndarray):
+        return _image(o.tolist())
+    if isinstance(o, (bool, np.bool_)):
+        return bool(o)
+    if isinstance(o, (int, np.integer)):
+        return int(o)
+    if isinstance(o, (float, np.floating)):
+        return float(o)
+    if isinstance(o, pathlib.Path):
+        return str(o)
+    return o
+
+
+def _snapshot(root):
+    """{relative path: content hash | 'dir'} of everything below root."""
+    snap = {}
+    for p in sorted(root.rglob("*")):
+        snap[str(p.relative_to(root))] = "dir" if p.is_dir() else hashlib.sha1(p.read_bytes()).hexdigest()
+    return snap
 
 
 def _norm(o):
@@ -112,18 +169,61 @@ def _diff(a, b, path=""):
 
 
 def _built_example_cards(scratch):
-    """The cards `eko runcards example` hands to the dumper (captured in-process; nothing is written)."""
+    """The cards `eko runcards example` hands to the dumper (captured in-process; nothing is written).
+
+    Returns ({file name: raw card passed to ekobox.cards.dump}, {"theory"|"operator": the card OBJECT the command obtained from
+    ekobox.cards.example and modified}).
+    """
     import ekobox.cards as ec
     from ekobox.cli import runcards as rc
 
-    seen = {}
-    orig = ec.dump
+    seen, kept = {}, {}
+    orig, orig_example = ec.dump, ec.example
+
+    class Spy(orig_example):
+        @classmethod
+        def theory(cls):
+            kept["theory"] = orig_example.theory()
+            return kept["theory"]
+
+        @classmethod
+        def operator(cls):
+            kept["operator"] = orig_example.operator()
+            return kept["operator"]
+
     ec.dump = lambda card, path: seen.__setitem__(pathlib.Path(path).name, card)
+    ec.example = Spy
     try:
         rc.sub_example.callback(destination=scratch / "inproc")
     finally:
         ec.dump = orig
-    return seen
+        ec.example = orig_example
+    return seen, kept
+
+
+def _runnable(t, o, base):
+    """Everything the solver does with a pair of cards before the numerics start; returns a description of what is wrong, or None."""
+    from eko.io.struct import EKO
+    from eko.runner import commons, recipes
+
+    with EKO.create(base / "valid.tar") as b:
+        e = b.load_cards(t, o).build()
+        recipes.create(e)
+        nev, nmatch = len(list(e.recipes)), len(list(e.recipes_matching))
+        tc, oc = e.theory_card, e.operator_card
+        at = commons.atlas(tc, oc)
+        cp = commons.couplings(tc, oc)
+        ip = commons.interpolator(oc)
+        a = [float(cp.a_s(mu2, nf)) for mu2, nf in oc.evolgrid]
+        npath = [len(at.matched_path(ep)) for ep in oc.evolgrid]
+    if nev < 1 or min(npath) < 1:
+        return f"no evolution recipe ({nev} evolutions, {nmatch} matchings, paths {npath})"
+    if not all(math.isfinite(x) and x > 0 for x in a):
+        return f"strong coupling at the targets: {a}"
+    nb = sum(1 for _ in ip)
+    if nb != len(oc.xgrid) or len(oc.xgrid) <= oc.configs.interpolation_polynomial_degree:
+        return f"{nb} basis functions for {len(oc.xgrid)} grid points of degree {oc.configs.interpolation_polynomial_degree}"
+    return None
 
 
 def _load_cards(tpath, opath):
@@ -164,6 +264,13 @@ def _example(case, base, res):
             target.parent.mkdir(parents=True)
         args += ["-d", ("out/deep/mycards" if nested else "mycards") if rel else str(target)]
     existed = target.exists()
+    if case.get("stale"):
+        # files of an earlier generation are in the way: they have to be replaced
+        for name in ("theory.yaml", "operator.yaml"):
+            (target / name).write_text("stale: true\n", encoding="utf-8")
+        if dest != "none" and case["default_dir"]:
+            (cwd / "runcards" / "operator.yaml").write_text("other: 1\n", encoding="utf-8")
+    before = _snapshot(base)
     rc, out, err = _launch(case, args, cwd)
     cls = _exc_class(err) if rc != 0 else "-"
     if rc != 0:
@@ -191,19 +298,72 @@ def _example(case, base, res):
         res.outcome = "example:unloadable"
         res.fail("cli/runcards-example/cards-do-not-load", f"{where}: {type(exc).__name__}: {str(exc)[:300]}")
         return
-    built = _built_example_cards(base)
+    # nothing but the two cards (and the destination folder with its parents) may have appeared or changed
+    after = _snapshot(base)
+    tr = str(target.relative_to(base))
+    allowed = {f"{tr}/theory.yaml", f"{tr}/operator.yaml"} | {str(pp.relative_to(base)) for pp in [target, *target.parents] if base in pp.parents}
+    stray = sorted(k for k in set(before) | set(after) if before.get(k) != after.get(k) and k not in allowed)
+    if stray:
+        res.fail("cli/runcards-example/stray-output", f"{where}: besides the two cards in {tr} the command created/changed/removed {stray}")
+    built, kept = _built_example_cards(base)
     bt = TheoryCard.from_dict(built["theory.yaml"])
     bo = OperatorCard.from_dict(built["operator.yaml"])
     for label, a, b in (("theory", t, bt), ("operator", o, bo)):
         d = _diff(_norm(a.raw), _norm(b.raw))
         if d:
             res.fail(f"cli/runcards-example/{label}-card-differs", f"{where}: loaded {label} card differs from the one built by the command at {d}")
-    res.outcome = f"example:ok:dest={'default' if dest == 'none' else dest}"
+    # (i) the file content is the raw card handed to the dumper; (ii) the loaded card OBJECT equals, attribute by attribute, the
+    # card OBJECT the command built (neither side of (ii) passes through DictLike.raw after the file was read)
+    import yaml
+
+    for label, fpath, loaded in (("theory", tp, t), ("operator", op, o)):
+        d = _diff(_norm(yaml.safe_load(fpath.read_text(encoding="utf-8"))), _norm(built[f"{label}.yaml"]))
+        if d:
+            res.fail(f"cli/runcards-example/{label}-file-differs-from-dumped-raw", f"{where}: content of {fpath.name} differs from the raw card handed to the dumper at {d}")
+        if label not in kept:
+            res.fail(f"cli/runcards-example/{label}-object-not-captured", f"{where}: the command did not obtain its {label} card from ekobox.cards.example")
+            continue
+        d = _diff(_image(loaded), _image(kept[label]))
+        if d:
+            res.fail(f"cli/runcards-example/{label}-card-object-differs", f"{where}: {label} card loaded from the written file differs from the card object built by the command at attribute {d}")
+    # valid runcards: the pair is accepted by everything the solver does before the numerics start
+    try:
+        bad = _runnable(t, o, base)
+    except Exception as exc:  # noqa
+        bad = f"{type(exc).__name__}: {str(exc)[:300]}"
+        res.fail(f"cli/runcards-example/cards-not-runnable/{type(exc).__name__}", f"{where}: the generated pair is refused by the solver set-up: {bad}")
+    else:
+        if bad:
+            res.fail("cli/runcards-example/cards-not-runnable", f"{where}: the generated pair is not a runnable job: {bad}")
+    res.outcome = f"example:ok:dest={'default' if dest == 'none' else dest}" + (":stale-replaced" if case.get("stale") else "")
     res.nontrivial = True
 
 
-def _run(case, base, res):
+def _library(lt, lo, path):
+    """eko.solve on loaded cards; returns the class name of the exception it raises, or None."""
     import eko
+
+    try:
+        eko.solve(lt, lo, path=path)
+    except Exception as exc:  # noqa
+        return type(exc).__name__
+    return None
+
+
+def _archive_image(path):
+    """Cards and metadata stored in an archive (attribute images)."""
+    from eko.io.struct import EKO
+
+    with EKO.read(path) as e:
+        md = e.metadata
+        return {
+            "theory": _image(e.theory_card),
+            "operator": _image(e.operator_card),
+            "metadata": {"origin": _image(md.origin), "xgrid": _image(md.xgrid), "version": md.version, "data_version": md.data_version},
+        }
+
+
+def _run(case, base, res):
     from ekobox import cards as ec
 
     cwd = base / "cwd"
@@ -211,6 +371,8 @@ def _run(case, base, res):
     where = f"case={case}"
     th, opc = cards.build(CARDS[case["card"]])
     form = case["form"]
+    out_kind = case.get("out", "tar")
+    lib = base / "lib.tar"
     if form == 1:
         job = cwd / "job"
         job.mkdir()
@@ -226,28 +388,53 @@ def _run(case, base, res):
         if form == 3:
             (cwd / "out").mkdir()
             outp = cwd / "out" / "result.tar"
-            rels.append("out/result.tar")
+            if out_kind == "notar":  # an output name the library does not accept
+                outp, lib = cwd / "out" / "result.dat", base / "lib.dat"
+            elif out_kind == "missing-dir":  # output below a folder that does not exist
+                outp, lib = cwd / "nodir" / "result.tar", base / "nolibdir" / "lib.tar"
+            elif out_kind == "exists":  # something is already there
+                outp.write_bytes(b"")
+                lib.write_bytes(b"")
+            rels.append(str(outp.relative_to(cwd)))
             abss.append(outp)
     ec.dump(th.raw, tp)
     ec.dump(opc.raw, op)
     before = {p for p in cwd.rglob("*")}
     args = ["run"] + (rels if case["paths"] == "rel" else [str(a) for a in abss])
     rc, out, err = _launch(case, args, cwd)
+    # the card files represent the cards: what is loaded from them equals, attribute by attribute, what was built in memory
+    lt, lo = _load_cards(tp, op)
+    for label, a, b in (("theory", lt, th), ("operator", lo, opc)):
+        d = _diff(_image(a), _image(b))
+        if d:
+            res.fail(f"cli/run/{label}-card-file-differs-from-card", f"{where}: {label} card loaded from the dumped file differs from the card object at attribute {d}")
     if rc != 0:
         cls = _exc_class(err)
+        libexc = _library(lt, lo, lib) if out_kind != "tar" else None
+        if libexc is not None and libexc == cls:
+            # the library refuses the same request with the same exception: nothing to compare
+            res.outcome = f"run:refused-like-library:{cls}:out={out_kind}"
+            res.nontrivial = False
+            return
         res.outcome = f"run:exit={rc}:{cls}"
-        res.fail(f"cli/run/exit={rc}/{cls}", f"{where}: `eko {' '.join(args)}` exits with {rc}: ...{_tail(err)}")
+        res.fail(
+            f"cli/run/exit={rc}/{cls}" + ("" if out_kind == "tar" else f"/out={out_kind}/library={libexc or 'succeeds'}"),
+            f"{where}: `eko {' '.join(args)}` exits with {rc}: ...{_tail(err)}" + ("" if out_kind == "tar" else f"; eko.solve on the same cards with an output of the same kind: {libexc or 'succeeds'}"),
+        )
         return
     new = sorted(str(p.relative_to(cwd)) for p in set(cwd.rglob("*")) - before)
-    if not outp.is_file() or new != [str(outp.relative_to(cwd))]:
+    expected_new = [str(outp.relative_to(cwd))] if out_kind != "missing-dir" else sorted([str(outp.parent.relative_to(cwd)), str(outp.relative_to(cwd))])
+    if not outp.is_file() or new != expected_new:
         res.outcome = "run:output-misplaced"
         res.fail(f"cli/run/output-location/form={form}", f"{where}: expected exactly {outp.relative_to(cwd)} to be created, new entries: {new}")
         if not outp.is_file():
             return
     # the library on the same card files
-    lt, lo = _load_cards(tp, op)
-    lib = base / "lib.tar"
-    eko.solve(lt, lo, path=lib)
+    libexc = _library(lt, lo, lib)
+    if libexc is not None:
+        res.outcome = f"run:ok-but-library-refuses:{libexc}"
+        res.fail(f"cli/run/accepted-what-library-refuses/out={out_kind}/{libexc}", f"{where}: the command exits with 0, eko.solve on the same cards with an output of the same kind raises {libexc}")
+        return
     got, ref = cards.read_ops(outp), cards.read_ops(lib)
     if sorted(got) != sorted(ref):
         res.fail("cli/run/points-differ", f"{where}: CLI archive has {sorted(got)}, library {sorted(ref)}")
@@ -268,10 +455,29 @@ def _run(case, base, res):
                     "cli/run/operators-differ",
                     f"{where}: at {ep} {'error' if k else 'operator'} tensors differ by {dev:.3g} (relative to the largest element)",
                 )
+            elif a.shape != b.shape or a.dtype != b.dtype or not np.array_equal(a, b):
+                # same code on the same machine: element by element the same numbers (a relative-to-largest tolerance would hide
+                # a change confined to small entries)
+                i = np.unravel_index(int(np.argmax(np.abs(a - b))), a.shape) if a.shape == b.shape else None
+                res.fail(
+                    "cli/run/operators-not-identical",
+                    f"{where}: at {ep} {'error' if k else 'operator'} tensors are not element-wise identical (shape {a.shape} vs {b.shape}, dtype {a.dtype} vs {b.dtype}, "
+                    f"largest difference at {i}: {a[i] if i else '-'} vs {b[i] if i else '-'})",
+                )
+    # the rest of the archive: stored cards and metadata
+    ia, ib = _archive_image(outp), _archive_image(lib)
+    for part in ("theory", "operator", "metadata"):
+        d = _diff(ia[part], ib[part])
+        if d:
+            res.fail(f"cli/run/archive-{part}-differs", f"{where}: {part} stored in the CLI archive differs from the library archive at {d}")
+    for part, card in (("theory", lt), ("operator", lo)):
+        d = _diff(ia[part], _image(card))
+        if d:
+            res.fail(f"cli/run/archive-{part}-is-not-the-input-card", f"{where}: {part} card stored in the CLI archive differs from the card file it was run on at {d}")
     # sanity of the comparison: the operator is not the identity everywhere (something was computed)
     moved = max(float(np.max(np.abs(v[0] - np.eye(v[0].shape[0] * v[0].shape[1]).reshape(v[0].shape)))) for v in ref.values())
     res.info = {"max_cli_vs_library_reldev": worst, "distance_from_identity": moved}
-    res.outcome = f"run:ok:form={form}:paths={case['paths']}"
+    res.outcome = f"run:ok:form={form}:paths={case['paths']}" + ("" if out_kind == "tar" else f":out={out_kind}")
     res.nontrivial = moved > 1e-3
 
 
@@ -295,6 +501,10 @@ def _cases(thorough):
         for dd in (False, True):
             for dest in DESTS:
                 cases.append(dict(kind="example", default_dir=dd, dest=dest, launcher=launcher))
+        # cards of an earlier generation already at the destination (and, with an explicit destination, a foreign file in ./runcards)
+        cases.append(dict(kind="example", default_dir=True, dest="none", launcher=launcher, stale=True))
+        cases.append(dict(kind="example", default_dir=False, dest="rel-existing", launcher=launcher, stale=True))
+        cases.append(dict(kind="example", default_dir=True, dest="abs-existing", launcher=launcher, stale=True))
     names = list(CARDS) if thorough else ["lo-1", "lo-2", "lo-trunc"]
     for form in (1, 2, 3):
         for card in names:
@@ -302,6 +512,12 @@ def _cases(thorough):
                 if not thorough and paths == "abs" and card != "lo-1":
                     continue
                 cases.append(dict(kind="run", form=form, card=card, paths=paths, launcher="script"))
+    if not thorough:
+        cases.append(dict(kind="run", form=2, card="sink", paths="rel", launcher="script"))
+    # third argument: outputs the library accepts or refuses
+    for out in OUTS[1:]:
+        for paths in ("rel", "abs") if thorough else ("rel",):
+            cases.append(dict(kind="run", form=3, card="lo-1", paths=paths, launcher="script", out=out))
     return cases
 
 
@@ -314,14 +530,20 @@ def run(ctx):
     ctx.run_cases(cases, evaluate, chunksize=1)
     ctx.rule = (
         "complete product {./runcards present, absent} x destination {none, relative existing, absolute existing, relative "
-        "missing, absolute missing, relative/absolute missing together with its parents} (thorough: x {console script, python -c entry point}) for `eko runcards example`; "
-        "{1, 2, 3 arguments} x cards {LO one target across a threshold, LO two targets, LO truncated; thorough: + LO polarised, NLO} x "
-        "{relative, absolute paths} (quick: absolute only for the first card) for `eko run`; each in its own subprocess and "
+        "missing, absolute missing, relative/absolute missing together with its parents} + 3 scenarios with cards of an earlier generation already at the "
+        "destination (default, relative, absolute; a foreign file in ./runcards when the destination is explicit) "
+        "(thorough: x {console script, python -c entry point}) for `eko runcards example`; "
+        "{1, 2, 3 arguments} x cards {LO one target across a threshold, LO two targets, LO truncated; thorough: + LO polarised, NLO, LO QCDxQED with running "
+        "alpha_em, and the card with every field away from its default (linear grid, MSbar, scale variation, exact inversion, downward, non-decimal floats)} x "
+        "{relative, absolute paths} (quick: absolute only for the first card; the all-fields card once with 2 arguments) + third argument in "
+        "{not a .tar name, below a missing folder, already existing} (quick: relative paths) for `eko run`; each in its own subprocess and "
         "fresh working directory; non-trivial = cards written and re-loaded / a non-identity operator compared with the library"
     )
     ctx.assumptions += [
         "an explicit destination that does not exist may either be created or be refused with a usage error leaving nothing behind",
-        "expected example cards = the objects the command passes to ekobox.cards.dump (captured in-process)",
-        "card files for `eko run` are written by ekobox.cards.dump from cards with plain Python numbers",
-        "CLI and library archives must agree to 1e-12 relative to the largest element (same code, same machine)",
+        "expected example cards = the objects the command obtains from ekobox.cards.example and modifies, and the raw cards it passes to ekobox.cards.dump (both captured in-process)",
+        "card files for `eko run` are written by ekobox.cards.dump from cards with plain Python numbers; the loaded cards must equal the built ones attribute by attribute",
+        "CLI and library archives must agree element by element (same code, same machine, single-threaded BLAS), stored cards and metadata included",
+        "an output request that eko.solve refuses (name not .tar, missing folder, existing file) must be refused by the command with the same exception class; such scenarios count as trivial",
+        "valid example cards = accepted by EKO.create/build, recipes.create, atlas, couplings (finite positive a_s at the targets) and the interpolation dispatcher",
     ]
